@@ -104,7 +104,7 @@ func VerifHarness_C20_structured() {
 	key, img := c20ValidImage(ctx, kind, store)
 	w := 4
 	if verifrt.Thorough() {
-		w = []int{4, 9}[verifrt.Choose("window", 2)]
+		w = []int{4, 6}[verifrt.Choose("window", 2)]
 	}
 	if len(img) < w {
 		w = len(img)
